@@ -118,22 +118,32 @@ func capIn(set CapSet, c Cap) bool {
 	return ok
 }
 
+// The table of capabilities implied by IMAP4rev2, as far as the client's choice
+// of literal and quoting syntax depends on it (RFC 9051 appendix E: LITERAL- is
+// part of IMAP4rev2, LITERAL+ is not; UTF8=ACCEPT-style quoting comes with it).
+// Established by the package initialiser and never modified afterwards.
+//
+//@ func init()
+//@   props C18:post
+//@   global-invariant
+//@   ensures capIn(imap4rev2Caps, CapLiteralMinus) && !capIn(imap4rev2Caps, CapLiteralPlus) && !capIn(imap4rev2Caps, CapIMAP4rev2)
+
 // HasLiteralMinusSpec: LITERAL- is available — advertised directly, implied by
 // IMAP4rev2, or implied by LITERAL+.
 //
 //@ pure
 func HasLiteralMinusSpec(set CapSet) bool {
-	return capIn(set, CapLiteralMinus) || (capIn(set, CapIMAP4rev2) && capIn(imap4rev2Caps, CapLiteralMinus)) || capIn(set, CapLiteralPlus)
+	return capIn(set, CapLiteralMinus) || capIn(set, CapIMAP4rev2) || capIn(set, CapLiteralPlus)
 }
 
 //@ pure
 func HasLiteralPlusSpec(set CapSet) bool {
-	return capIn(set, CapLiteralPlus) || (capIn(set, CapIMAP4rev2) && capIn(imap4rev2Caps, CapLiteralPlus))
+	return capIn(set, CapLiteralPlus)
 }
 
 //@ pure
 func HasIMAP4rev2Spec(set CapSet) bool {
-	return capIn(set, CapIMAP4rev2) || (capIn(set, CapIMAP4rev2) && capIn(imap4rev2Caps, CapIMAP4rev2))
+	return capIn(set, CapIMAP4rev2)
 }
 
 //@ pure
